@@ -67,7 +67,10 @@ func TestSim(t *testing.T)                              { engine.Main(t, eng{}) 
 var etypes = []int{18, 17, 19, 20, 16, 23}
 
 var clientPerturbs = []refkdc.Perturb{{}, {Kind: "nonce", Arg: 1}, {Kind: "cname"}, {Kind: "crealm"}, {Kind: "sealed-sname"}, {Kind: "other-key"}, {Kind: "other-usage", Arg: 9},
-	{Kind: "enc-flip"}, {Kind: "enc-trunc"}, {Kind: "authtime", Arg: 400_000_000_000}, {Kind: "enc-plain-garbage", Arg: 40}, {Kind: "padata-garbage"}, {Kind: "tkt-sname-empty"}, {Kind: "msg-type", Arg: 13}}
+	{Kind: "enc-flip"}, {Kind: "enc-trunc"}, {Kind: "authtime", Arg: 400_000_000_000}, {Kind: "enc-plain-garbage", Arg: 40},
+	// a reply that decrypts but does not decode, with the session key still inside the plaintext
+	{Kind: "enc-plain-subst", Arg: 0<<8 | 0x30}, {Kind: "enc-plain-subst", Arg: 1<<8 | 0x05}, {Kind: "enc-plain-subst", Arg: 5<<8 | 0xff}, {Kind: "enc-plain-prefix", Arg: 70},
+	{Kind: "padata-garbage"}, {Kind: "tkt-sname-empty"}, {Kind: "msg-type", Arg: 13}}
 var clientNets = []struct {
 	k string
 	a int64
@@ -396,10 +399,15 @@ func runClient(tp *Tape, m *monitor) {
 		}
 		cl = client.NewWithKeytab("alice", "SIM.TEST", kt, cfg, client.Logger(log.New(&logBuf, "", 0)))
 	}
-	surfaces := func(stage string) {
+	// every key the KDC has put into a reply so far is a secret the client may have seen, also when
+	// the reply was damaged afterwards and the exchange failed: learn them before anything is scanned
+	learn := func() {
 		for _, is := range kdc.Issues() {
 			m.t.Add("session-key", "session key "+is.Serial, is.SessionKey.Value)
 		}
+	}
+	surfaces := func(stage string) {
+		learn()
 		var b bytes.Buffer
 		engine.Guard(func() { cl.Print(&b) })
 		m.scan("diagnostic-dump", "Client.Print "+stage, b.Bytes())
@@ -434,6 +442,7 @@ func runClient(tp *Tape, m *monitor) {
 		}
 		var e error
 		engine.Guard(func() { e = cl.Login() })
+		learn()
 		m.scanErr("Client.Login", e)
 		surfaces("after login attempt")
 		// an honest login, then faults on the TGS exchange
@@ -451,6 +460,7 @@ func runClient(tp *Tape, m *monitor) {
 			net.Beh["tcp!10.0.0.1:88"] = world.Behaviour{Kind: tp.Net, Arg: tp.NetArg}
 		}
 		engine.Guard(func() { _, _, e = cl.GetServiceTicket("HTTP/host.sim.test") })
+		learn()
 		m.scanErr("Client.GetServiceTicket", e)
 		surfaces("after ticket request")
 		armed = false
